@@ -22,6 +22,14 @@ columns; callee `h`), which must be two terms with the value of their own text e
 `Environment` object passed as `env=` to several `design_matrices` calls whose `extra_namespace`
 dicts bind the same names to other objects, each design judged over the names of its own call.
 
+A scope stage takes the names of a call from the caller's scopes: `design_matrices` is called from a
+frame (a real function / `exec` with separate locals and globals / an explicit `Environment`) whose
+locals, globals and `extra_namespace` bind the argument and callee names, the innermost binding mostly
+to a falsy object (None, 0, False, '', [], 0.0) with and without an outer binding of the same name;
+the design is then evaluated on new frames some of which HAVE a column named like such a name.  Every
+value is judged against Python's own `eval` of the same text over the same scopes, the columns of the
+frame at hand first.
+
 Failures of the specification on the implementation's output are classified KF-C12-D15 /
 KF-C12-D16 only when the Lean guard puts the case in that class *and* the implementation's output
 equals the model's prediction; anything else is reported as a violation.
@@ -78,6 +86,25 @@ ASSUMPTIONS = [
     "`lambda v, k=1: v * m + k` with a multiplier per binding (the Lean driver gets them as "
     "top-level entries of its object table), variables small dyadic scalars or float64 columns; "
     "operators + - * / only; the designs of a round are evaluated one after the other in one process",
+    "scope stage: Python's lookup over the scopes is `eval(text, G, L)` with L = collections.ChainMap("
+    "columns of the frame at hand, formulae's TRANSFORMS + ENCODINGS, the caller's locals), G = the "
+    "caller's globals and G['__builtins__'] = the extra_namespace dict (the outermost scope of "
+    "Python's own name lookup), i.e. the documented order data > built-in transforms > locals > "
+    "globals > extra_namespace; the caller's frame is a function generated with the names as "
+    "parameters and the globals dict as its module globals, an `exec` with separate locals / globals "
+    "dicts, or `env=Environment([locals, globals])`; argument names shift, w, k0 and callee names fa, "
+    "fb are none of the built-in transform names and are never bound to a transform; callee names are "
+    "never column names (the callee lookup skips the data, Python's would not); texts use + - * /, one "
+    "comparison per argument (grouped when it is a keyword value), nested calls, keywords, no `**`, no "
+    "prefix sign, no comparison chain (the region where both grammars agree), so no known-finding "
+    "class is accepted there; values bound: None, 0, False, '', [], 0.0, small ints / dyadic floats, "
+    "strings, True, a float64 array of 4 entries, a list (the recording callee `f` codes a list by its "
+    "length; lists are outside the Lean value domain: such cases are judged against Python only); a "
+    "case in which both Python and the implementation fail (None in arithmetic, unbound name, a "
+    "non-callable callee) is counted and not followed to new data; the Lean model gets the names "
+    "already resolved (first match in the order above) and is compared where it yields a value; new "
+    "frames have 2-7 rows, columns x, z, q and dyadic float64 columns named like a subset of the "
+    "call's argument names, default or string index",
     "String-level injectivity of the name normalisation (equal names => equal token sequences) is "
     "checked here against Python's ast, not proved in Lean",
 ]
@@ -122,6 +149,8 @@ def canon(v):
         return ["str", v]
     if v is None:
         return ["none"]
+    if isinstance(v, (list, tuple)):
+        return ["list", [canon(e) for e in v]]
     return ["obj", type(v).__name__]
 
 
@@ -139,6 +168,8 @@ def _numof(v):
         return np.full(N, float(sum(map(ord, v)) % 7 + 1))
     if v is None:
         return np.full(N, -3.0)
+    if isinstance(v, (list, tuple)):       # plain Python lists reach a callee only as values of names
+        return np.full(N, 11.0 + len(v))   # of the caller's scopes (scope stage; not modelled in Lean)
     raise TypeError("numof")
 
 
@@ -1270,6 +1301,324 @@ def run_env_round(res, seed, rnd):
 
 
 # ------------------------------------------------------------------------------------------------
+# names resolved from the caller's scopes: falsy values, shadowing, columns that turn up later
+# ------------------------------------------------------------------------------------------------
+SC_VARS = ["shift", "w", "k0"]                      # argument names, bound in the caller's scopes
+SC_FUNS = ["fa", "fb"]                              # callee names, bound in the caller's scopes
+SC_SCOPES = ["locals", "globals", "extra_namespace"]   # inner to outer, below the data frame
+SC_FALSY = [None, None, None, None, 0, False, "", [], 0.0]
+SC_TRUTHY = [1, 2, 3, 7, 10, 100, 0.5, 2.5, -1, -4, 10.0, 6.0, "a", "b c", True, "array", [2, 5]]
+SC_SUBSETS = [(0,), (1,), (2,), (0,), (1,), (0, 1), (0, 1), (0, 2), (1, 2), (0, 1, 2)]
+
+
+def _sc_describe(v):
+    if callable(v):
+        m = getattr(v, "mult", None)
+        return f"lambda v, k=1: v * {m} + k" if m is not None else "recording callee " + v.__name__
+    if isinstance(v, np.ndarray):
+        return "numpy.array(" + repr(v.tolist()) + ")"
+    return repr(v)
+
+
+def gen_scope_arith(rng, depth):
+    r = rng.random()
+    if depth <= 0 or r < 0.45:
+        k = rng.random()
+        if k < 0.35:
+            return ("leaf", rng.choice(SC_VARS))
+        if k < 0.8:
+            return ("leaf", rng.choice(["x", "z"]))
+        if k < 0.93:
+            return ("leaf", rng.choice(["2", "0.5", "3", "0", "'a'"]))
+        return ("leaf", rng.choice(PYLITS))
+    if r < 0.75:
+        return ("bin", rng.choice(["+", "-", "*", "/", "+", "*"]), gen_scope_arith(rng, depth - 1),
+                gen_scope_arith(rng, depth - 1))
+    callee = rng.choice(["g", "g"] + SC_FUNS)
+    kws = [("k", gen_scope_arith(rng, depth - 2))] if rng.random() < 0.4 else []
+    return ("call", callee, [gen_scope_arith(rng, depth - 1)], kws)
+
+
+def gen_scope_arg(rng):
+    """one argument: a name / an arithmetic expression / one comparison of two of them (no chain)"""
+    r = rng.random()
+    if r < 0.5:
+        return ("leaf", rng.choice(SC_VARS))
+    if r < 0.87:
+        return gen_scope_arith(rng, rng.randrange(0, 3))
+    return ("bin", rng.choice(["==", "!=", "<", ">=", "==", "!="]), gen_scope_arith(rng, 1),
+            gen_scope_arith(rng, 1))
+
+
+def gen_scope_text(rng):
+    """a call term over the columns x, z and names that come from the caller's scopes (at least one
+    of them); only constructs the formula grammar and Python read alike (no `**`, no prefix sign, no
+    comparison chain)"""
+    while True:
+        if rng.random() < 0.65:
+            args = [gen_scope_arg(rng) for _ in range(rng.choice([1, 2, 2, 3]))]
+            kws = [(k_, gen_scope_arg(rng)) for k_ in rng.sample(["k", "m", "shift"],
+                                                               rng.choice([0, 0, 1, 1, 2]))]
+            # `k = a == b` is not in the formula grammar: a comparison as keyword value is grouped
+            kws = [(k_, ("par", v_) if v_[0] == "bin" and v_[1] in CMP else v_) for k_, v_ in kws]
+            if rng.random() < 0.5:
+                args.insert(rng.randrange(len(args) + 1), ("leaf", rng.choice(["x", "z"])))
+            t = ("call", "f", args, kws)
+        else:       # the callee itself comes from the scopes; its value has to be a column
+            first = ("bin", rng.choice(["+", "-", "*"]), ("leaf", rng.choice(["x", "z"])),
+                     gen_scope_arith(rng, 1))
+            kws = [("k", gen_scope_arith(rng, 1))] if rng.random() < 0.5 else []
+            t = ("call", rng.choice(SC_FUNS), [first], kws)
+        toks = render(t, "py")
+        if any(n_ in toks for n_ in SC_VARS + SC_FUNS):
+            return join(toks, rng), [n_ for n_ in SC_VARS if n_ in toks]
+
+
+def gen_scopes(rng):
+    """what the caller's locals, the caller's globals and extra_namespace bind: every argument name
+    and every callee name in a non-empty subset of the three (rarely in none); the innermost binding
+    is mostly a falsy object (None / 0 / False / '' / [] / 0.0; for a callee name sometimes), an outer
+    binding of the same name mostly another, truthy one.  All non-falsy values of a case differ."""
+    scopes = [dict() for _ in SC_SCOPES]
+    truthy = rng.sample(SC_TRUTHY, len(SC_TRUTHY))
+    mults = rng.sample(range(3, 400), 8)
+    for name, fn in (("f", f), ("g", g)):
+        scopes[rng.randrange(3)][name] = fn
+    for vn in SC_VARS:
+        if rng.random() < 0.04:
+            continue
+        for pos, i in enumerate(rng.choice(SC_SUBSETS)):
+            if rng.random() < (0.7 if pos == 0 else 0.25):
+                v = rng.choice(SC_FALSY)
+                v = [] if isinstance(v, list) else v
+            else:
+                v = truthy.pop()
+                v = list(v) if isinstance(v, list) else v
+                v = np.array(_dyadic(rng, 4, 1, 9)) if isinstance(v, str) and v == "array" else v
+            scopes[i][vn] = v
+    for fn in SC_FUNS:
+        if rng.random() < 0.04:
+            continue
+        for pos, i in enumerate(rng.choice(SC_SUBSETS)):
+            if rng.random() < (0.25 if pos == 0 else 0.1):
+                scopes[i][fn] = rng.choice([None, None, 0, False, ""])
+            else:
+                u = make_unit(mults.pop())
+                u.mult = int(u.__name__[1:])
+                scopes[i][fn] = u
+    return scopes
+
+
+def _sc_transforms():
+    from formulae.terms.call import ENCODINGS
+    from formulae.transforms import TRANSFORMS
+    return {**TRANSFORMS, **ENCODINGS}
+
+
+def build_in_scopes(flavour, formula, data, scopes):
+    """design_matrices called from a frame whose locals / globals are exactly the given dicts (plus
+    the caller's own plumbing names, all prefixed `_c12_`), with the third dict as extra_namespace"""
+    from formulae import design_matrices
+    from formulae.environment import Environment
+    loc, glo, extra = (dict(s_) for s_ in scopes)
+    if flavour == "explicit Environment":
+        return design_matrices(formula, data, env=Environment([loc, glo]), extra_namespace=extra)
+    plumbing = {"_c12_dm": design_matrices, "_c12_formula": formula, "_c12_data": data,
+                "_c12_extra": extra}
+    call = "_c12_dm(_c12_formula, _c12_data, extra_namespace=_c12_extra)"
+    if flavour == "exec with locals and globals":
+        loc.update(plumbing)
+        exec("_c12_out = " + call, glo, loc)                      # noqa: S102
+        return loc["_c12_out"]
+    # a real function: the names are its parameters (fast locals), its module globals are `glo`
+    src = ("def _c12_caller(" + ", ".join(list(plumbing) + list(loc)) + "):\n    return " + call + "\n")
+    exec(src, glo)                                                # noqa: S102
+    return glo["_c12_caller"](**plumbing, **loc)
+
+
+def py_eval_scoped(text, frame, scopes):
+    """Python's own evaluation of the text over the same scopes: the frame's columns, the built-in
+    transforms, the caller's locals (eval's `locals`: a collections.ChainMap, first match), the
+    caller's globals (eval's `globals`) and extra_namespace as the outermost scope Python itself
+    knows (`__builtins__` of those globals)"""
+    import collections
+    try:
+        with warnings.catch_warnings():
+            warnings.simplefilter("ignore")
+            code = compile(text, "<c12>", "eval")
+    except Exception as e:  # noqa
+        return {"error": "syntax", "cls": type(e).__name__}
+    loc = collections.ChainMap({c_: frame[c_] for c_ in frame.columns}, _sc_transforms(),
+                               dict(scopes[0]))
+    glo = dict(scopes[1])
+    glo["__builtins__"] = dict(scopes[2])
+    del LOG[:]
+    try:
+        with warnings.catch_warnings(), np.errstate(all="ignore"), rows(len(frame)):
+            warnings.simplefilter("ignore")
+            v = eval(code, glo, loc)                              # noqa: S307
+    except Exception as e:  # noqa
+        return {"error": "eval", "cls": type(e).__name__}
+    return {"value": canon(v), "log": list(LOG)}
+
+
+def _term_column(dm, part, mat, frame):
+    """the column of the one call term in a matrix object of the design (`mat`: dm.common / dm.group or
+    what their evaluate_new_data returned)"""
+    m = np.asarray(mat.design_matrix, dtype=float)
+    if part == "common":
+        if m.ndim != 2 or m.shape != (len(frame), 1):
+            return {"error": "shape", "cls": str(m.shape)}
+        return {"value": canon(m[:, 0])}
+    groups = [str(g_) for g_ in list(dm.group.terms.values())[0].groups]
+    if m.ndim != 2 or m.shape != (len(frame), len(groups)):
+        return {"error": "shape", "cls": str(m.shape)}
+    return {"value": canon(np.array([m[i_, groups.index(str(q_))]
+                                     for i_, q_ in enumerate(frame["q"].tolist())]))}
+
+
+def _sc_lean_request(text, frame, scopes):
+    """the request for the Lean model over the RESOLVED names (first match: the frame's columns, then
+    locals, globals, extra_namespace; callees without the frame); None when a value is outside the
+    model's value domain (a list)"""
+    lvars, lmods = {}, []
+    for name in ["x", "z"] + SC_VARS:
+        for sc in [{c_: frame[c_] for c_ in frame.columns}] + list(scopes):
+            if name in sc:
+                v = sc[name]
+                if v is None:
+                    lvars[name] = {"none": True}
+                elif isinstance(v, (bool, np.bool_)):
+                    lvars[name] = {"b": bool(v)}
+                elif isinstance(v, (int, float)):
+                    lvars[name] = {"n": _lean_num(v)}
+                elif isinstance(v, str):
+                    lvars[name] = {"s": v}
+                elif isinstance(v, (pd.Series, np.ndarray)):
+                    lvars[name] = {"v": [_lean_num(t_) for t_ in np.asarray(v, dtype=float).tolist()]}
+                elif name in text:
+                    return None
+                break
+    for name in SC_FUNS:
+        for sc in scopes:
+            if name in sc:
+                if getattr(sc[name], "mult", None) is not None:
+                    lmods.append({"p": [name], "m": [sc[name].mult, 1]})
+                break
+    return {"op": "c12", "s": text, "n": len(frame), "vars": lvars, "mods": lmods}
+
+
+def scope_round(res, seed, rnd):
+    """One call term whose names come from the caller's scopes.  The design is built from a frame
+    with the given locals / globals / extra_namespace and judged; then it is evaluated on new frames,
+    some of which HAVE a column named like one of those names (the column is then the resolved name).
+    Every value must be Python's eval of the same text over the same scopes, the frame's columns
+    first, and the callees must have received what Python passes them."""
+    rng = rng_for(seed, "c12", "scopes", rnd)
+    clash = set(SC_VARS + SC_FUNS + ["f", "g", "x", "z"]) & set(_sc_transforms())
+    assert not clash, clash
+    text, used = gen_scope_text(rng)
+    scopes = gen_scopes(rng)
+    flavour = rng.choice(["function", "function", "exec with locals and globals",
+                          "explicit Environment"])
+    part = "group" if rng.random() < 0.2 else "common"
+    train = _data()
+    train["q"] = GROUPS
+    in_train = [n_ for n_ in used if rng.random() < 0.08]
+    for n_ in in_train:
+        train[n_] = _dyadic(rng, 4, 1, 9)
+    formula = ("y ~ 0 + " + text) if part == "common" else f"y ~ 0 + (0 + {text} | q)"
+    desc = {"s": text, "kind": "scopes", "round": rnd, "part": part,
+            "called_from": flavour,
+            "scopes": {n_: {k_: _sc_describe(v_) for k_, v_ in s_.items()}
+                       for n_, s_ in zip(SC_SCOPES, scopes)},
+            "training_columns": [c_ for c_ in train.columns]}
+    records = []
+
+    def record(step, label, frame, io):
+        py = py_eval_scoped(text, frame, scopes)
+        res.evaluations += 1
+        res.count("scopes:" + label.split(":")[0])
+        records.append({"case": dict(desc, step=step, label=label,
+                                     frame={c_: frame[c_].tolist() for c_ in frame.columns
+                                            if c_ not in ("y", "q")}),
+                        "io": io, "py": py, "rq": _sc_lean_request(text, frame, scopes)})
+        return py
+
+    # design time
+    del LOG[:]
+    try:
+        with warnings.catch_warnings(), np.errstate(all="ignore"):
+            warnings.simplefilter("ignore")
+            dm = build_in_scopes(flavour, formula, train, scopes)
+        log = list(LOG)
+        if (dm.common is not None) != (part == "common") or (dm.group is not None) != (part == "group"):
+            io = {"error": "terms", "cls": "not the one term"}
+        else:
+            io = _term_column(dm, part, getattr(dm, part), train)
+            io["log"] = log
+    except Exception as e:  # noqa
+        dm, io = None, {"error": "eval", "cls": type(e).__name__}
+    py = record(0, "design", train, io)
+    if "value" not in io or "value" not in py:
+        return records
+    # prediction: frames with and without a column named like a name of the caller's scopes
+    late = [n_ for n_ in used if n_ not in in_train]
+    plans = [[]]
+    if late:
+        plans += [rng.sample(late, rng.randrange(1, len(late) + 1)) for _ in range(2)]
+    plans += [list(in_train)] if rng.random() < 0.5 else []
+    rng.shuffle(plans)
+    if late and not plans[0] and rng.random() < 0.5:
+        plans.reverse()
+    for i, extra_cols in enumerate(plans):
+        n = rng.choice([2, 3, 4, 4, 4, 5, 7])
+        frame = pd.DataFrame({"x": _dyadic(rng, n), "z": _dyadic(rng, n, 1, 9),
+                              "q": [rng.choice("pq") for _ in range(n)]})
+        for c_ in sorted(set(extra_cols) | set(in_train)):
+            frame[c_] = _dyadic(rng, n, 1, 9)
+        if rng.random() < 0.2:
+            frame.index = [f"r{i_}" for i_ in range(n)]
+        label = (f"{part}.evaluate_new_data: new frame with column(s) "
+                 + ", ".join(c_ for c_ in frame.columns if c_ != "q"))
+        record(i + 1, label, frame, impl_eval_on(dm, part, frame))
+    return records
+
+
+def run_scopes(res, seed, rounds):
+    todo = []
+    for rnd in rounds:
+        todo += scope_round(res, seed, rnd)
+    rqs = [r_["rq"] for r_ in todo if r_["rq"] is not None]
+    answers = iter(ask(rqs) if rqs else [])
+    for rec in todo:
+        case, io, py = rec["case"], rec["io"], rec["py"]
+        lo = next(answers) if rec["rq"] is not None else {}
+        lv = lo.get("value") or {}
+        if "ok" in lv and "value" in io and io["value"][0] == "vec":
+            res.traces += 1
+            res.count("scopes:lean value compared")
+            if not lean_val_eq(lv["ok"], io["value"]):
+                res.mismatches.append({"case": case, "impl": io, "model": lv,
+                                       "why": "value differs from the model's exact value over the "
+                                              "resolved names"})
+        if "error" in py and "error" in io:
+            res.count("scopes:both fail")
+            continue
+        if "value" in py and py["value"][0] != "vec" and "error" in io:
+            res.count("scopes:skipped (Python's value is not a numeric column)")
+            continue
+        if obs_equal(py, io):
+            res.nontrivial.add(("scopes", case["s"], case["round"], case["step"]))
+            continue
+        res.failures.append({
+            "case": case, "impl": io, "expected": py, "finding": None,
+            "why": f"{case['label']}: value / received arguments differ from Python's evaluation of "
+                   "the same text over the same scopes (the frame's columns, then the caller's "
+                   "locals, the caller's globals, extra_namespace)"})
+
+
+# ------------------------------------------------------------------------------------------------
 def explore(tier, seed, res=None, replay=None):
     res = res or Result()
     res.rule = ("call terms f(<expr>) over columns x, z (dyadic float64), scalar c, literals, "
@@ -1292,7 +1641,17 @@ def explore(tier, seed, res=None, replay=None):
                 "as env= to 2-4 design_matrices calls whose extra_namespace dicts bind the same "
                 "names (callees fa, fb; argument variables shift, w: scalars or columns; sometimes "
                 "left unbound) to other objects, each design judged against Python's eval and the "
-                "Lean model over the names of its own call")
+                "Lean model over the names of its own call; scope stage: call terms whose argument "
+                "names (shift, w, k0) and callee names (fa, fb, f, g) are bound in the caller's locals / "
+                "globals / extra_namespace (every non-empty subset of the three, rarely none), the "
+                "innermost binding mostly None / 0 / False / '' / [] / 0.0 with and without an outer "
+                "binding of the same name, design_matrices called from a generated function, an exec "
+                "with separate locals and globals, or with an explicit Environment; common term or "
+                "effect of a group-specific term; the design and then 1-4 evaluate_new_data calls on "
+                "new frames with and without columns named like the call's argument names (design "
+                "frame mostly without them), each value and the arguments the callees received "
+                "compared with Python's eval of the same text over the same scopes, the columns of the "
+                "frame at hand first")
     # the module-like objects depend on the seed only (a replay rebuilds the same objects)
     build_mods(rng_for(seed, "c12", "mods"))
     if replay is not None:
@@ -1300,6 +1659,8 @@ def explore(tier, seed, res=None, replay=None):
             run_predict(res, [replay["s"]], seed, replay.get("path", 0))
         elif replay.get("kind") == "env_reuse":
             run_env_round(res, seed, replay.get("round", 0))
+        elif replay.get("kind") == "scopes":
+            run_scopes(res, seed, [replay.get("round", 0)])
         elif "a" in replay:
             run_pairs(res, [(replay["a"], replay["b"])], replay.get("kind", "replay"),
                       cols=replay.get("cols"))
@@ -1466,6 +1827,10 @@ def explore(tier, seed, res=None, replay=None):
     #    dicts bind the same names (functions, argument variables) to other objects
     for rnd in range(40 if quick else 600):
         run_env_round(res, seed, rnd)
+
+    # 9. names resolved from the caller's scopes (locals / globals / extra_namespace): falsy values,
+    #    shadowing of an outer binding, and new frames that have a column named like such a name
+    run_scopes(res, seed, range(300 if quick else 5000))
 
     # 7. prediction: call terms through common / group evaluate_new_data on new frames, on the same
     #    frame object after in-place edits, on fresh copies
